@@ -184,8 +184,38 @@ func c06Specs() map[string]*c06Spec {
 	return m
 }
 
+// c06IncludeUnit: the Taskfile is written by hand (an include), the program model describes the
+// merged view and serves the oracles only.
+func c06IncludeUnit(tier string) *Unit {
+	line := func(task string) string {
+		return "      - printf '%s\\n' 'P|" + task + "|0|=|'\n"
+	}
+	files := map[string]string{
+		"Taskfile.yml": "version: '3'\nincludes:\n  inc: ./inc.yml\ntasks:\n  root:\n    deps: ['inc:build:assets', 'inc:lint:assets', 'inc:other']\n    cmds:\n      - printf '%s\\n' 'P|root|0|@|'\n",
+		"inc.yml": "version: '3'\ntasks:\n  'build:assets':\n    run: once\n    cmds:\n" + line("inc:build:assets") +
+			"  'lint:assets':\n    run: once\n    cmds:\n" + line("inc:lint:assets") +
+			"  other:\n    run: once\n    deps: ['build:assets']\n    cmds:\n" + line("inc:other"),
+	}
+	pg := &Prog{Tasks: []*T{
+		{Name: "root", Deps: []Ref{DS("inc:build:assets", "="), DS("inc:lint:assets", "="), DS("inc:other", "=")}, Cmds: []C{P()}},
+		{Name: "inc:build:assets", Run: "once", Cmds: []C{P()}},
+		{Name: "inc:lint:assets", Run: "once", Cmds: []C{P()}},
+		{Name: "inc:other", Run: "once", Deps: []Ref{DS("inc:build:assets", "=")}, Cmds: []C{P()}},
+	}}
+	sp := &c06Spec{pg: pg, dedup: map[string]*c06Task{
+		"inc:build:assets": {mode: "once", refs: 2}, "inc:lint:assets": {mode: "once", refs: 1}, "inc:other": {mode: "once", refs: 1}}}
+	sc := &vlab.Scenario{Name: "once-in-include-same-last-segment/cinf", Files: files, Spec: pg,
+		Calls: []vlab.CallSpec{{Task: "root", Vars: [][2]string{{"VP", "@"}}}}}
+	bound := 2
+	if tier == "thorough" {
+		bound = 3
+	}
+	return &Unit{Name: sc.Name, Sc: sc, Bound: bound, Prune: true, Check: both(c06Check(sp), c01Check(pg)), Weight: 4}
+}
+
 func c06Units(tier string) []*Unit {
 	var us []*Unit
+	us = append(us, c06IncludeUnit(tier))
 	specs := c06Specs()
 	var names []string
 	for k := range specs {
